@@ -143,6 +143,25 @@ int run_compare(const Args& a) {
         key_tuple kt{std::string_view{k}};
         if (kt.get_key_slice() != x.slice() || kt.get_key_length() != x.len()) { rep.violation("compare:key_tuple-from-string", "key_tuple(string_view) builds a wrong tuple", x.json()); }
     }
+    // ... for every remaining length of the key (the remainder of a long key is what the cursor builds its endpoint tuples from)
+    {
+        uint64_t built = 0;
+        for (std::size_t i = 0; i < U.size(); i += 37) {
+            const Ent& x = U[i];
+            if (x.bytes.size() != 8) { continue; }
+            for (std::size_t tail = 1; tail <= 600; tail += (tail < 20 || (tail >= 240 && tail <= 280) || (tail >= 500 && tail <= 530) ? 1 : 13)) {
+                std::string k = x.bytes + std::string(tail, 't');
+                key_tuple kt{std::string_view{k}};
+                ++built;
+                if (kt.get_key_slice() != x.slice() || kt.get_key_length() != 9) {
+                    rep.violation("compare:key_tuple-from-string", "key_tuple(string_view) of a key that continues in the next layer is not (slice, 9)",
+                                  JObj().str("slice", hex(x.bytes)).num("key_bytes", k.size()).num("length_built", kt.get_key_length()).done());
+                    break;
+                }
+            }
+        }
+        rep.count("key_tuples_built_from_long_keys", built);
+    }
     // transitivity / antisymmetry on triples
     {
         std::vector<Ent> sub;
